@@ -333,3 +333,62 @@ def many_decls_case(rng):
             "".join("i%d();\n" % k for k in range(n)) + "END_PROGRAM\n"
     return "PROGRAM p\nVAR\n" + "".join("  v%d : INT := %d;\n" % (k, k) for k in range(n)) + "END_VAR\n" + \
         "".join("v%d := v%d + %d;\n" % (k, (k + 1) % n, k) for k in range(n)) + "END_PROGRAM\n"
+
+
+FLAT_KINDS = ["chain", "chain-two-levels", "comparisons", "statements", "elsif", "case-groups", "case-labels", "enum-values",
+              "arguments", "array-elements", "variables", "string", "comment", "invalid-characters", "struct-elements", "subscripts"]
+
+
+def flat_case(rng, kind=None, n=None):
+    """Length instead of depth: one flat construct that is long - within 64 KiB and with no bracket or statement nesting
+    beyond a few levels - a sum of thousands of terms, thousands of statements, ELSIF branches, case labels, enumeration
+    values, arguments, array elements, variables, one long string or comment, thousands of invalid characters.  The
+    grammar turns a flat chain into a deep tree; whatever walks that tree recursively has to cope."""
+    n = n or rng.choice([200, 300, 500, 700, 1000, 1500, 2000, 3000, 5000, 8000, 12000])
+    kind = rng.randrange(16) if kind is None else kind
+    head = "PROGRAM p\nVAR x : INT; b : BOOL; a : ARRAY[0..9] OF INT; END_VAR\n"
+    tail = "\nEND_PROGRAM\n"
+    if kind == 0:
+        op = rng.choice([" + ", "+", " - ", " * ", " OR ", " AND ", " XOR ", " & ", " / ", " MOD "])
+        term = rng.choice(["1", "x", "x", "2"]) if "OR" not in op and "AND" not in op and "&" not in op else "b"
+        text = head + ("b" if term == "b" else "x") + " := " + op.join([term] * n) + ";" + tail
+    elif kind == 1:
+        # two precedence levels alternating: a + b * c + d * e ...
+        text = head + "x := " + " + ".join("x * %d" % (k % 7) for k in range(n // 2)) + ";" + tail
+    elif kind == 2:
+        text = head + "b := " + " OR ".join("x %s %d" % (rng.choice(["<", "=", ">", "<>", "<=", ">="]), k) for k in range(n // 3)) + ";" + tail
+    elif kind == 3:
+        text = head + "".join("x := x + %d;\n" % k for k in range(n // 2)) + tail
+    elif kind == 4:
+        text = head + "IF x = 0 THEN x := 1;\n" + "".join("ELSIF x = %d THEN x := %d;\n" % (k, k + 1) for k in range(1, n // 4)) + "ELSE x := 0;\nEND_IF;" + tail
+    elif kind == 5:
+        text = head + "CASE x OF\n" + "".join("%d: x := %d;\n" % (k, k + 1) for k in range(n // 3)) + "END_CASE;" + tail
+    elif kind == 6:
+        text = head + "CASE x OF\n" + ", ".join(str(k) for k in range(n)) + ": x := 1;\nEND_CASE;" + tail
+    elif kind == 7:
+        text = "TYPE Big : (" + ", ".join("v%d" % k for k in range(n)) + "); END_TYPE\n"
+    elif kind == 8:
+        text = head + "x := f(" + ", ".join(str(k % 10) for k in range(n)) + ");" + tail
+    elif kind == 9:
+        text = "PROGRAM p\nVAR big : ARRAY[0..%d] OF INT := [%s]; END_VAR\nEND_PROGRAM\n" % (n, ", ".join(str(k % 10) for k in range(n)))
+    elif kind == 10:
+        text = "PROGRAM p\nVAR\n" + "".join(" v%d : INT;\n" % k for k in range(n // 2)) + "END_VAR\nEND_PROGRAM\n"
+    elif kind == 11:
+        q = rng.choice(["'", '"'])
+        text = "PROGRAM p\nVAR s : %s := %s%s%s; END_VAR\nEND_PROGRAM\n" % ("STRING" if q == "'" else "WSTRING", q,
+                                                                            rng.choice(["a", "é", "ab ", "$$"]) * (n * 2), q)
+    elif kind == 12:
+        text = head + "(*" + rng.choice([" c", "*", "(", " é", "\n"]) * (n * 2) + " *) x := 1;" + tail
+    elif kind == 13:
+        # as many lexical errors as fit
+        text = head + rng.choice(["? ", "?", "@ ?\n", "\\ "]) * n + tail
+    elif kind == 14:
+        text = "TYPE S : STRUCT\n" + "".join(" m%d : INT;\n" % k for k in range(n // 2)) + "END_STRUCT; END_TYPE\n" + \
+            "PROGRAM p VAR s : S := (" + ", ".join("m%d := %d" % (k, k) for k in range(min(n // 2, 1500))) + "); END_VAR END_PROGRAM\n"
+    else:
+        # selector chains and unary chains are flat too
+        text = head + "x := " + rng.choice(["a[0]" + "[0]" * 0 + ".m" * 0, "x"]) + "".join(" + a[%d]" % (k % 10) for k in range(n // 2)) + ";" + tail
+    raw = text.encode("utf-8")
+    if len(raw) > 65000:
+        text = raw[:65000].decode("utf-8", "ignore")
+    return text
